@@ -59,6 +59,26 @@ CHECKS = {
    text='Theorems C12_next_fb_independent and C12_inside_char_error (closed): the two modes run the same graph and one next() call from the same position yields the same skipped regions and Ok item, or an error whose end is each mode\'s rounding of the same raw end; in byte mode an attempt starting inside a character of valid UTF-8 dies on its first byte (under utf8_strict_ok), so the errors cover the same bytes. Per run: captured graphs of every dual definition are equal across modes; compiled twins agree on Ok tokens, spans and the set of error bytes on all valid-UTF-8 probes; acceptance pairs (rejected in str mode, accepted with utf8 = false).',
    design='DESIGN.md section 7 (C12)',
    note='Stream-level agreement follows from the per-call theorems by iteration (not a Coq theorem); compared directly by K2.'),
+ 'C08': dict(
+   technique='Coq proof (winner characterisation; reachability certificate) + exhaustive per-definition exploration of the captured raw DFA by the extracted checker',
+   text='Theorems C08_tie_iff_shared, C08_no_silent_choice, C08_tie_has_ambiguous_string (closed): a DFA state wins by tie exactly when two different leaves share the greatest priority among the matching leaves; an accepted DFA (dfa_ok) never has such a state on any input; a tie state with a validated reachability hint yields a concrete byte string matched by both patterns. Per run, for every definition of the corpora (incl. rejected ones and 40% random definitions with free priorities): the tie sets computed in Coq from the raw DFA (printed by the hook without get_state_type) equal the GraphError::Disambiguation sets, the accept/reject outcome agrees, every conflicting leaf is named by a diagnostic.',
+   design='DESIGN.md section 7 (C08)', category='proof',
+   note='"Some string is fully matched by patterns" is read on the captured DFA (regex-automata modelled as data). Definitions rejected earlier for empty matches / no universal start are outside the iff.'),
+ 'C09': dict(
+   technique='Coq proof (nested induction over the match relation of the HIR mirror) + per-leaf evaluation of the Coq rule on the captured HIR',
+   text='Theorems C09_complexity_le_len, C09_literal_never_beaten and the four structural rules (closed): any string matched by r has at least complexity(r)/2 bytes, so a default-priority regex matching a literal token\'s text never has a greater priority than the token (2 x byte length): the token wins or C08 reports the tie. Per run: for every leaf of every corpus definition the Coq complexity of the HIR printed by the hook equals Pattern::priority(); leaf priority equals the explicit priority or the default (attributes scanned independently); on accepted definitions each literal is run through the captured DFA on its own text.',
+   design='DESIGN.md section 7 (C09)',
+   note='Matches treats look-arounds as empty (sound for the upper bound). HIR construction is regex-syntax. Unicode classes are truncated to 24 ranges when printed to Coq (complexity ignores class contents).'),
+ 'C10': dict(
+   technique='Coq proof of the escape round trip and of the language-equality certificate (bisimulation) + per-case certificates against reference automata built without logos',
+   text='Theorems C10_escape_str_roundtrip, C10_escape_bytes_roundtrip (the escaped literal denotes exactly the literal bytes, all byte strings) and C10_bisim_sound (a validated relation implies the two leaves match the same texts in the same contexts) (closed). Per run, seeded literals over all regex metacharacters, case-folding-sensitive characters, 3/4-byte characters and bytes 0x80..0xFF: plain #[token] vs the chain automaton of its bytes; ignore(case) token / regex / skip vs the DFA regex-automata builds for (?i:escaped) without logos; companion leaf unchanged; Literal::escape vs the Coq model. Finding F2 (skip ignores ignore(case)) re-found and fixed.',
+   design='DESIGN.md sections 7 (C10), 9 (F2)',
+   note='Unicode case folding and the regex grammar are regex-syntax data; the composition is decided per generated case by bisim_ok (hint from Python BFS, validated by the extracted checker), not for all literals at once.'),
+ 'C11': dict(
+   technique='Coq model and lemmas of the textual substitution + language-equality certificates against an independent inliner',
+   text='Theorems C11_subst_group_free, C11_subst_prefix_copied, C11_subst_at_group, C11_subst_undefined, C11_bisim_sound (closed) on the model of subst_subpatterns. Per run: curated and random definitions with subpatterns (top-level alternation, inline flags, lazy repetition, assertions, byte-string subpatterns, chains three deep, references under repetition): the captured leaf DFA is language-equal (bisim_ok) to the DFA of the pattern inlined by an independent inliner with scoped (?u:..)/(?-u:..) groups; undefined references are compile errors; the real subst_subpatterns equals Front.Subpat.subst by vm_compute.',
+   design='DESIGN.md section 7 (C11)',
+   note='The subst model is a hand mirror tied by K8; grouping semantics of the regex grammar is exercised, not proved.'),
 }
 
 def main():
